@@ -25,6 +25,7 @@ type bufWorld struct {
 	grows, shrinks, removes, appends, emptied, frontEmpty, stops int
 	same                                                         *int
 	nils, sames, nilFrontFull                                    int
+	reentrant, reentrantMut                                      int
 }
 
 func checkBufferedLayout() string {
@@ -220,7 +221,7 @@ func (w *bufWorld) observers() *bufFail {
 
 func (w *bufWorld) replay(extra map[string]any) map[string]any {
 	m := map[string]any{"structure": "ring.Buffered vs slice queue", "initial": w.initial, "buffer": w.bsize,
-		"ops": string(w.trace), "legend": "A AppendBack(fresh pointer), N AppendBack(nil), S AppendBack(the one shared pointer v1000), R RemoveFront, F Front, G Range, g<k>. Range stopped at callback k, L Len; Len checked after every step",
+		"ops": string(w.trace), "legend": "r<kind><k>. Range with a re-entrant callback (ce consume, re requeue, ee consume+requeue, rs reads, ne nested range; acting on the first k visits), A AppendBack(fresh pointer), N AppendBack(nil), S AppendBack(the one shared pointer v1000), R RemoveFront, F Front, G Range, g<k>. Range stopped at callback k, L Len; Len checked after every step",
 		"queue_len": len(w.q)}
 	for k, v := range extra {
 		m[k] = v
@@ -252,6 +253,8 @@ func (w *bufWorld) add(o *bufWorld) {
 	w.nils += o.nils
 	w.sames += o.sames
 	w.nilFrontFull += o.nilFrontFull
+	w.reentrant += o.reentrant
+	w.reentrantMut += o.reentrantMut
 }
 
 // ---------------------------------------------------------------- exhaustive
@@ -413,8 +416,10 @@ func runBufSeeded(idx int, g group) {
 				fail = w.checkLen("Len")
 			case r < 92:
 				fail = w.rangeStop(0)
-			default:
+			case r < 96:
 				fail = w.rangeStop(rng.Range(1, 6))
+			default:
+				fail = w.rangeReentrant(rng.Intn(cbKinds), rng.PickInt(1, 2, 3, 1000))
 			}
 		}
 		if fail == nil {
@@ -439,4 +444,6 @@ func runBufSeeded(idx int, g group) {
 	}
 	tot.flush("buffered.seeded.")
 	rec.Count("buffered.seeded.sequences", g.n)
+	rec.Count("buffered.seeded.reentrant_walks", tot.reentrant)
+	rec.Count("buffered.seeded.mutations_inside_callbacks", tot.reentrantMut)
 }
